@@ -236,7 +236,30 @@ func trunc(s string, n int) string {
 // Finish writes the evidence file and exits with the verdict.
 func (r *Run) Finish() {
 	code := r.FinishNoExit()
+	RunAtExit()
 	os.Exit(code)
+}
+
+var (
+	atExitMu  sync.Mutex
+	atExitFns []func()
+)
+
+// AtExit registers a cleanup (scratch directories) that Finish runs before os.Exit; deferred calls do not run then.
+func AtExit(fn func()) {
+	atExitMu.Lock()
+	atExitFns = append(atExitFns, fn)
+	atExitMu.Unlock()
+}
+
+func RunAtExit() {
+	atExitMu.Lock()
+	fns := atExitFns
+	atExitFns = nil
+	atExitMu.Unlock()
+	for i := len(fns) - 1; i >= 0; i-- {
+		fns[i]()
+	}
 }
 
 func (r *Run) FinishNoExit() int {
